@@ -267,7 +267,7 @@ Proof.
     destruct (hashable tagv); [|unfold guard in H; try discriminate; destruct (caught _ _); discriminate].
     rewrite with_variant_find in H. destruct (find_variant tagv vs) as [t'|] eqn:F; [|unfold guard in H; try discriminate; destruct (caught _ _); discriminate].
     simpl. clear -IHvs F H. induction vs as [|[tv u] r IH]; simpl in *; [discriminate|].
-    inversion IHvs as [|? ? Iu Ir]; subst. destruct (py_eqb tagv tv).
+    inversion IHvs as [|? ? Iu Ir]; subst. destruct (lit_match tagv tv).
     + inversion F; subst. left. eapply Iu; eauto.
     + right. now apply IH.
 Qed.
